@@ -81,6 +81,11 @@ def run(ctx):
             if len(cs) <= 700:
                 model_cases.append((stream, cs, mode, ev, snaps))
         real_constraints(ctx, I)
+        if model_ok:
+            from harness import c07_std
+            c07_std.std_correspondence(ctx, I, ctx.n(50, 1500), label="C11_std")
+    if model_ok:
+        schema_bounds(ctx)
     ctx.sample(dict(kind="trickle", stream=list(model_cases[0][0][:80]), chunks=model_cases[0][1][:10], rootmode=model_cases[0][2]))
     if model_ok:
         c07.correspond(ctx, model_cases)
@@ -224,6 +229,7 @@ def real_constraints(ctx, I):
     full_containers(ctx, I)
     member_counts(ctx, I)
     choice_open_sweep(ctx, I)
+    slot_alternation(ctx, I)
     pb_index_tokens(ctx)
     if ctx.build_ok or ctx.coq_build(["lib/OpenerProofs.vo"])[0]:
         opener_correspondence(ctx)
@@ -255,6 +261,7 @@ def real_constraints(ctx, I):
         if (total >= 4100) != lost or hwn > 4100 + 1000:
             ctx.fail("oracle/negotiation-cap", "negotiation buffer: fed %d bytes without a blank line: connection dropped=%s, high-water %d"
                      % (total, lost, hwn), replay=dict(total=total))
+    negotiation_coalesced(ctx)
 
 
 def full_containers(ctx, I):
@@ -311,6 +318,168 @@ def full_containers(ctx, I):
                     ctx.fail("oracle/full-container-buffers-extra-item", "%s already held all the items it admits (%d sent), yet %d bytes of one more "
                              "item (a %s token announcing %d bytes, acceptable to the item constraint alone) were buffered instead of being refused "
                              "at the header" % (name, k, hw, hex(ty), size), replay=dict(constraint=name, kind=kind, k=k, ty=ty, size=size, step=step, highwater=hw))
+
+
+def schema_bounds(ctx):
+    """lib/StdUnsl.sbound (the bound of props/C11.v's C11_schema_bound_standard_unslicers, computed in Coq from the taster tables of
+    the live constraint objects) against the bound this harness derives from the constraints' public attributes"""
+    from harness import c07_std
+    from foolscap.constraint import ByteStringConstraint, IntegerConstraint, NumberConstraint, Any
+    from foolscap.schema import ListOf, TupleOf, DictOf, SetOf, UnicodeConstraint, BooleanConstraint, ChoiceOf
+    from foolscap.slicers.none import Nothing
+    items = []
+    for k in (0, 1, 5, 40, 300):
+        leaves = [("bytes<=%d" % k, lambda: ByteStringConstraint(maxLength=k), k), ("int<=%dB" % max(4, k), lambda: IntegerConstraint(maxBytes=max(4, k)), max(4, k)),
+                  ("int32", lambda: IntegerConstraint(maxBytes=-1), 0), ("number", lambda: NumberConstraint(maxBytes=max(4, k)), max(4, k)),
+                  ("unicode<=%d" % k, lambda: UnicodeConstraint(maxLength=k), 6 * k), ("bool", lambda: BooleanConstraint(), 0), ("none", lambda: Nothing(), 0),
+                  ("choice", lambda: ChoiceOf(ByteStringConstraint(maxLength=k), None, IntegerConstraint(maxBytes=8)), max(k, 8)),
+                  ("bytes-unbounded", lambda: ByteStringConstraint(maxLength=None), None), ("any", lambda: Any(), None),
+                  ("unicode-unbounded", lambda: UnicodeConstraint(maxLength=None), None)]
+        omax = lambda a, b: None if a is None or b is None else max(a, b)
+        for n1, m1, b1 in leaves:
+            items.append((n1, m1(), b1))
+            items.append(("ListOf(%s)" % n1, ListOf(m1(), maxLength=3), b1))
+            items.append(("SetOf(%s)" % n1, SetOf(m1(), maxLength=3), b1))
+            for n2, m2, b2 in leaves[:3]:
+                items.append(("TupleOf(%s,%s)" % (n1, n2), TupleOf(m1(), m2()), omax(b1, b2)))
+                items.append(("DictOf(%s,ListOf(%s))" % (n2, n1), DictOf(m2(), ListOf(m1(), maxLength=2), maxKeys=2), omax(b1, b2)))
+    terms = [c07_std.to_coq(c) for _, c, _ in items]
+    body = ("Local Open Scope Z_scope.\nEval vm_compute in map (fun c => match sbound c with Some b => b | None => -1 end) [\n%s].\n" % ";\n".join(terms))
+    try:
+        (vals,) = ctx.coq_eval("C11_sbound", body, requires=["Verif.lib.PyLite", "Verif.gen.BananaGen", "Verif.lib.Token", "Verif.lib.Recv", "Verif.lib.Unsl", "Verif.lib.StdUnsl"])
+    except common.CoqEvalError as e:
+        ctx.fail("correspondence-broken", "sbound could not be evaluated: " + str(e)[-1200:], has_input=False)
+        return
+    bad = 0
+    for (name, c, want), got in zip(items, vals):
+        ctx.traces += 1
+        w = -1 if want is None else want
+        if got != w:
+            bad += 1
+            if bad <= 2:
+                ctx.fail("correspondence/schema-bound", "the bound computed in Coq from the taster tables of %s is %s, the constraint's public limits give %s"
+                         % (name, "none" if got == -1 else got, "none" if want is None else want), replay=dict(constraint=name, coq=got, harness=want), has_input=False)
+    ctx.extra["schema_bound_cases"] = len(items)
+    ctx.extra["schema_bound_disagreements"] = bad
+
+
+def slot_alternation(ctx, I):
+    """containers whose slots carry DIFFERENT constraints (the key and the value of a dict, the positions of a tuple): the limit in
+    force for a token is the one of ITS slot, whatever the previous members were -- in particular members that are falsy or None
+    (None, 0, b"", False, "", (), an empty list).  A body the slot's constraint refuses must not be buffered (only header bytes)."""
+    from foolscap.constraint import IConstraint, ByteStringConstraint, IntegerConstraint, Any
+    from foolscap.schema import ListOf, TupleOf, DictOf, ChoiceOf, BooleanConstraint, UnicodeConstraint
+    r = ctx.rng
+    NONE = tok(OPEN, 7) + S(b"none") + tok(CLOSE, 7)
+    FALSE = tok(OPEN, 7) + S(b"boolean") + enc_int(0) + tok(CLOSE, 7)
+    EMPTYTEXT = tok(OPEN, 7) + S(b"unicode") + S(b"") + tok(CLOSE, 7)
+    EMPTYTUPLE = tok(OPEN, 7) + S(b"tuple") + tok(CLOSE, 7)
+    prev = [("None", NONE), ("0", enc_int(0)), ("b''", S(b"")), ("False", FALSE), ("''", EMPTYTEXT), ("()", EMPTYTUPLE), ("b'k'", S(b"k")), ("5", enc_int(5))]
+    loose = lambda: ChoiceOf(None, ByteStringConstraint(maxLength=300), IntegerConstraint(maxBytes=8), BooleanConstraint(), UnicodeConstraint(maxLength=40),
+                             TupleOf())
+    tight = lambda: ByteStringConstraint(maxLength=10)
+    cases = []
+    for pname, pbytes in prev:
+        # dict: loose key, tight value: after the key, a value of 300 / 10**6 bytes is refused on its header
+        cases.append(("DictOf(loose, bytes<=10): key %s then an oversize VALUE" % pname, lambda: DictOf(loose(), tight(), maxKeys=5), tok(OPEN, 0) + S(b"dict") + pbytes))
+        # dict: tight key, loose value: after a complete pair, the next KEY is refused on its header
+        cases.append(("DictOf(bytes<=10, loose): pair (b'a', %s) then an oversize KEY" % pname, lambda: DictOf(tight(), loose(), maxKeys=5),
+                      tok(OPEN, 0) + S(b"dict") + S(b"a") + pbytes))
+        # tuple: (loose, tight) and (tight, loose, tight)
+        cases.append(("TupleOf(loose, bytes<=10): item %s then an oversize second item" % pname, lambda: TupleOf(loose(), tight()), tok(OPEN, 0) + S(b"tuple") + pbytes))
+        cases.append(("TupleOf(bytes<=10, loose, bytes<=10): items b'a', %s then an oversize third item" % pname, lambda: TupleOf(tight(), loose(), tight()),
+                      tok(OPEN, 0) + S(b"tuple") + S(b"a") + pbytes))
+        # two complete pairs first
+        cases.append(("DictOf(loose, bytes<=10): pairs (%s, b'v'), (b'q', b'w') then key b'z' and an oversize VALUE" % pname, lambda: DictOf(loose(), tight(), maxKeys=5),
+                      tok(OPEN, 0) + S(b"dict") + pbytes + S(b"v") + S(b"q") + S(b"w") + S(b"z")))
+    for desc, mk, pre in cases:
+        for ty, size in ((STRING, 300), (STRING, 11), (STRING, 10 ** 6), (LONGINT, 200)):
+            for step in (1, 7, 64):
+                p = I.RealBanana()
+                p.receiveStack[-1].constraint = IConstraint(mk())
+                hw, esc = 0, None
+                try:
+                    p.dataReceived(pre)
+                    depth_before = len(p.receiveStack)
+                    p.dataReceived(tok(ty, size))
+                    hw = len(p.buffer)
+                    left = min(size, 400)
+                    while left > 0 and not p.connectionAbandoned:
+                        n_ = min(step, left)
+                        p.dataReceived(b"y" * n_)
+                        left -= n_
+                        hw = max(hw, len(p.buffer))
+                except Exception as e:
+                    esc = "%s: %s" % (type(e).__name__, e)
+                ctx.case(["slot-alternation", desc, ty, size, step], nontrivial=True)
+                ctx.hist("slot_alternation", desc.split(":")[0])
+                if esc:
+                    ctx.fail("oracle/exception-escaped", "exception escaped dataReceived (%s): %s" % (desc, esc), replay=dict(case=desc))
+                elif depth_before < 2 or p.connectionAbandoned and hw <= 65:
+                    continue            # the prefix itself was refused: nothing to measure
+                elif hw > 65:
+                    ctx.fail("oracle/rejected-body-buffered/wrong-slot", "%s: a %s token announcing %d bytes, which the constraint of ITS slot (bytes <= 10) refuses, "
+                             "was buffered (%d bytes held, chunks of %d): the taster of another slot was applied"
+                             % (desc, hex(ty), size, hw, step), replay=dict(case=desc, ty=ty, size=size, step=step, highwater=hw))
+                    break
+
+
+def negotiation_coalesced(ctx):
+    """the 4096-byte cap on one negotiation block holds for every packet boundary: k complete small blocks followed, IN THE SAME
+    PACKET, by an unterminated remainder or by a complete oversize block.  Phase handlers are probes that record the block sizes."""
+    import foolscap.negotiate as neg
+    r = ctx.rng
+    small = b"x-small: 1"
+    for k in (1, 2, 3):
+        for rest_kind in ("unterminated", "complete-oversize"):
+            for total in (4100, 4200, 10000, 20000):
+                for split in ("one-packet", "split-inside-rest", "blocks-then-rest"):
+                    nobj = neg.Negotiation()
+                    nobj.isClient = False
+                    log_ = []
+                    blocks = []
+
+                    class T:
+                        def write(self, d):
+                            log_.append(("w", d))
+
+                        def loseConnection(self):
+                            log_.append(("lose",))
+                    nobj.transport = T()
+                    nobj.negotiationFailed = lambda: None
+                    probe = lambda header: blocks.append(len(header))
+                    nobj.handlePLAINTEXTServer = probe
+                    nobj.handlePLAINTEXTClient = probe
+                    nobj.handleENCRYPTED = probe
+                    nobj.handleDECIDING = probe
+                    head = (small + b"\r\n\r\n") * k
+                    rest = b"y" * total + (b"\r\n\r\n" if rest_kind == "complete-oversize" else b"")
+                    if split == "one-packet":
+                        packets = [head + rest]
+                    elif split == "split-inside-rest":
+                        packets = [head + rest[:50], rest[50:]]
+                    else:
+                        packets = [head, rest]
+                    hw, esc = 0, None
+                    try:
+                        for pk in packets:
+                            if ("lose",) in log_ or nobj.receive_phase == neg.ABANDONED:
+                                break
+                            nobj.dataReceived(pk)
+                            if ("lose",) not in log_:
+                                hw = max(hw, len(nobj.buffer))
+                    except Exception as e:
+                        esc = "%s: %s" % (type(e).__name__, e)
+                    lost = ("lose",) in log_
+                    ctx.case(["negotiation-coalesced", k, rest_kind, total, split], nontrivial=True)
+                    ctx.hist("negotiation_coalesced", split)
+                    if esc:
+                        ctx.fail("oracle/exception-escaped", "exception escaped Negotiation.dataReceived: %s" % esc, replay=dict(k=k, rest=rest_kind, total=total, split=split))
+                    elif (not lost and hw > 4096 + 3) or any(b > 4096 for b in blocks):
+                        ctx.fail("oracle/negotiation-cap/coalesced", "negotiation: %d complete small block(s) followed by %s of %d bytes (%s): connection dropped=%s, %d bytes of "
+                                 "one unfinished block held while alive, block sizes handed to the phase handlers %r (cap 4096)"
+                                 % (k, "an unterminated block" if rest_kind == "unterminated" else "a complete block", total, split, lost, hw, blocks[:6]),
+                                 replay=dict(k=k, rest=rest_kind, total=total, split=split, highwater=hw, blocks=blocks[:6]))
 
 
 def choice_open_sweep(ctx, I):
